@@ -88,6 +88,49 @@ def generate(rng, tier):
     return {'profile': ID, 'world': world, 'ops': ops, 'plan': plan, 'env': {'listing_seed': rng.randint(0, 99)}}
 
 
+N_SWEEPS_THOROUGH = 200
+SWEEP_RULE = ('for one sampled doctest that awaits a gather of k <= 4 concurrent awaiters: *every assignment order* of k distinct '
+              'virtual delays to the awaiters (k! completion orders), at a sampled verbosity; start, resume and completion order and '
+              'the recorded stdout must equal the reference program in each')
+
+
+def sweep(rng, h):
+    import copy
+    import itertools
+    cfg = gen.default_cfg(p_want=0.4, max_steps=4, p_helper=0.0)
+    cfg['n_modules'] = (1, 1)
+    cfg['n_funcs'] = (1, 1)
+    cfg['p_class'] = 0.0
+    cfg['p_moddoc'] = 0.0
+    cfg['layouts'] = ['google']
+    cfg['max_doctests_per_doc'] = 1
+    cfg['async_forms'] = ['await', 'awaitprint', 'asyncwith']
+    cfg['p_async'] = 0.3
+    world = gen.gen_world(rng, cfg)
+    dtid, dt, mod = list(W.iter_doctests(world))[0]
+    k = rng.randint(2, 4)
+    steps = dt['steps']
+    base_i = max(st['i'] for st in steps) + 1
+    pfx = 'q0f0d0'
+    g = {'i': base_i, 'form': 'gather', 'pts': ['%ss%d%s' % (pfx, base_i, 'abcd'[j]) for j in range(k)],
+         'delays': [0] * k, 'ps2': False, 'sep': rng.choice(['none', 'blank'])}
+    steps.insert(rng.randint(0, len(steps)), g)
+    steps[0]['sep'] = 'none'
+    gen.fix_chunk_starts(steps)
+    base = {'profile': ID, 'world': world, 'plan': [], 'env': {'listing_seed': rng.randint(0, 99)},
+            'ops': [{'op': 'run_obj', 'dt': dtid, 'verbose': rng.choice([0, 2, 3]), 'on_error': 'return'}]}
+    delays = [0, 0.001, 2.5, 3600][:k]
+    out = []
+    for perm in itertools.permutations(delays):
+        v = copy.deepcopy(base)
+        for d2, spec, m2 in W.iter_doctests(v['world']):
+            for st in spec['steps']:
+                if st['form'] == 'gather' and st['i'] == base_i:
+                    st['delays'] = list(perm)
+        out.append(v)
+    return out
+
+
 def check(rec):
     meta = expect.build(rec)
     out = []
